@@ -48,6 +48,8 @@ def run_case(spec):
     except ToolCrash as e:
         from harness.monitors import c01
         te = e.te
+        if c01.crash_mech(te, {}) == 'TIMEOUT':
+            return {'nontrivial': False, 'counters': {'cases': 1, 'tool_timeouts': 1}, 'violations': []}
         return {'nontrivial': False, 'counters': {'cases': 1, 'tool_crashes': 1},
                 'violations': [{'kind': 'tool-crash', 'mech': c01.crash_mech(te, {'has_nested': te.get('has_nested')}),
                                 'msg': f"callVariant raised {te['type']}: {te['msg']}\n{te['tb'][-700:]}"}]}
@@ -195,15 +197,15 @@ def check(rep, tier, seed, specs=None, n_override=None):
     if specs is None:
         n = n_override or (1600 if quick else 80000)
         kinds = ['limits', 'limits', 'flags', 'flags', 'records', 'records-dense', 'files', 'switch', 'limits-dense']
-        strata = ['small', 'multi', 'as', 'fusion_var', 'circ_var', 'sec', 'small', 'circ', 'fusion']
+        strata = ['small', 'multi', 'as', 'fusion_var', 'circ_var', 'sec', 'small', 'circ', 'fusion', 'units']
         specs = []
         for i in range(n):
             kind = kinds[i % len(kinds)]
             st = strata[(i // len(kinds)) % len(strata)]
             if kind == 'files':
-                st = ['as', 'fusion_var', 'circ_var'][i % 3]
+                st = ['as', 'fusion_var', 'circ_var', 'units', 'units'][i % 5]
             if kind == 'switch':
-                st = ['as', 'fusion_var', 'circ_var', 'circ'][i % 4]
+                st = ['as', 'fusion_var', 'circ_var', 'circ', 'units'][i % 5]
             specs.append({'kind': kind, 'stratum': st, 'seed': common.hash64('c05', 'fixed' if i < n // 2 else seed, i)})
     results, lost = common.shard_run('c05', specs, timeout_s=1800 if quick else 6 * 3600)
     rep.rule = ('paired callVariant executions on one generated input: chains miscleavage 0-1-2-3, min-length 9-7-5, max-length 15-25-40, '
